@@ -932,7 +932,7 @@ V("C09", "invalidation_skips_root_params", "fire", "R09.e", (R, "            par
   "            params[0].owner.param._watch(self._invalidate_current, [p.name for p in params if p not in self._root._fn_params], precedence=-1)"))
 V("C09", "invalidate_current_early_return_when_dirty", "fire", "R09.f", (R, "        if all(event.obj is self._trigger for event in events):\n            return\n        self._dirty = True",
   "        if self._dirty or all(event.obj is self._trigger for event in events):\n            return\n        self._dirty = True"))
-V("C13", "memo_from_base_memos", "fire", "R13.d", (Z, """        for class_ in classlist(cls):
+V("C13", "memo_from_base_memos", "fire", "R13.h", (Z, """        for class_ in classlist(cls):
             for name, val in class_.__dict__.items():
                 if isinstance(val, Parameter):
                     paramdict[name] = val
@@ -1500,3 +1500,21 @@ V("C08", "benign_update_ref_unwatch_via_helper_variable", "benign", None, (Z, ""
             watcher = entry[1]
             dep_obj = watcher.inst if watcher.inst is not None else watcher.cls
             dep_obj.param.unwatch(watcher)"""))
+
+# namespace model
+V("C13", "cache_patched_in_place_for_subclasses_without_own_entry", "fire", "R13.h", (Z, """        for cls in descendents(mcs):
+            private = cls.__dict__.get('_param__private')
+            if private is not None:
+                private.params = {}""", """        for cls in descendents(mcs):
+            private = cls.__dict__.get('_param__private')
+            if private is not None and (cls is mcs or not private.params):
+                private.params = {}"""))
+V("C13", "benign_cls_parameters_dict_comprehension", "benign", None, (Z, """        paramdict = {}
+        for class_ in classlist(cls):
+            for name, val in class_.__dict__.items():
+                if isinstance(val, Parameter):
+                    paramdict[name] = val
+""", """        paramdict = {}
+        for class_ in classlist(cls):
+            paramdict.update({name: val for name, val in class_.__dict__.items() if isinstance(val, Parameter)})
+"""))
